@@ -118,7 +118,9 @@ Definition arith_body (R : grec) (k : arithk) (sp : span) (a b : tyid) : M unit 
 (* fn div (1874) *)
 Definition div_body (R : grec) (sp : span) (a b : tyid) : M unit :=
   ta <- find_type a ;; tb <- find_type b ;;
-  if is_unknown ta || is_unknown tb then ret tt
+  if is_unknown ta || is_unknown tb then
+    (* checked again when the unknown side becomes known (since 98fbc93) *)
+    add_constraint a (CDivTop b) ;;; add_constraint b (CDivBot a)
   else if is_num ta && is_num tb then ret tt
   else match ta with
        | HTuple xs =>
@@ -772,7 +774,7 @@ Section WithVars.
          else
            unify_option G sp (Some ret_ty) actual_ret ;;;
            ret (None, f_ty)
-       | EBlob blob fields _ sp =>
+       | EBlob blob fields self_var sp =>
          bt <- var_ty blob ;;
          blob_ty <- copy G bt ;;
          t <- find_type blob_ty ;;
@@ -789,6 +791,9 @@ Section WithVars.
            | e1 :: more => fail_many e1 more
            | [] =>
              given_blob <- push_type (HBlob name sp given bargs) ;;
+             (* `self` inside the methods is the instance that is being created (since 6a11bb8) *)
+             self_ty <- var_ty self_var ;;
+             unify G sp self_ty given_blob ;;;
              ret0 <- push_type HUnknown ;;
              iterM (fun fe : string * expr =>
                       '(iret, ety) <- r_expr R (snd fe) ctx ;;
